@@ -12,26 +12,30 @@ using M = hfsm2::MachineT<Cfg>;
 #define S(s) struct s
 #define VM_UTILITY 1
 #ifdef VM_NESTED_UTIL
-// utilitarian region with a nested utilitarian region and an orthogonal prong (utility of a nested region = head x chosen sub; orthogonal = head x mean)
-using FSM = M::PeerRoot< S(A), M::Utilitarian<S(U), S(U1), M::Utilitarian<S(V), S(V1), S(V2)>, M::Orthogonal<S(O), S(O1), S(O2)>> >;
-#define VM_NS 10
-#define VM_NC 3
+// utilitarian region whose FIRST prong is a nested utilitarian region, a leaf, and an orthogonal prong containing another utilitarian region
+// (utility of a nested region = head x chosen sub; orthogonal = head x mean)
+using FSM = M::PeerRoot< S(A), M::Utilitarian<S(U), M::Utilitarian<S(V), S(V1), S(V2)>, S(U1), M::Orthogonal<S(O), S(O1), M::Utilitarian<S(W), S(W1), S(W2)>>> >;
+#define VM_NS 12
+#define VM_NC 4
 #include "tier_c/spec_types.hpp"
 static const VSpec VM_SPEC[VM_NS] = {
-  /*0 root*/ { -1, 0, K_COMPO, 2, ST_COMPOSITE,   0 },
-  /*1 A   */ {  0, 0, K_LEAF,  0, ST_NONE,       -1 },
-  /*2 U   */ {  0, 1, K_COMPO, 3, ST_UTILITARIAN, 1 },
-  /*3 U1  */ {  2, 0, K_LEAF,  0, ST_NONE,       -1 },
-  /*4 V   */ {  2, 1, K_COMPO, 2, ST_UTILITARIAN, 2 },
-  /*5 V1  */ {  4, 0, K_LEAF,  0, ST_NONE,       -1 },
-  /*6 V2  */ {  4, 1, K_LEAF,  0, ST_NONE,       -1 },
-  /*7 O   */ {  2, 2, K_ORTHO, 2, ST_NONE,        0 },
-  /*8 O1  */ {  7, 0, K_LEAF,  0, ST_NONE,       -1 },
-  /*9 O2  */ {  7, 1, K_LEAF,  0, ST_NONE,       -1 },
+  /*0  root*/ { -1, 0, K_COMPO, 2, ST_COMPOSITE,   0 },
+  /*1  A   */ {  0, 0, K_LEAF,  0, ST_NONE,       -1 },
+  /*2  U   */ {  0, 1, K_COMPO, 3, ST_UTILITARIAN, 1 },
+  /*3  V   */ {  2, 0, K_COMPO, 2, ST_UTILITARIAN, 2 },
+  /*4  V1  */ {  3, 0, K_LEAF,  0, ST_NONE,       -1 },
+  /*5  V2  */ {  3, 1, K_LEAF,  0, ST_NONE,       -1 },
+  /*6  U1  */ {  2, 1, K_LEAF,  0, ST_NONE,       -1 },
+  /*7  O   */ {  2, 2, K_ORTHO, 2, ST_NONE,        0 },
+  /*8  O1  */ {  7, 0, K_LEAF,  0, ST_NONE,       -1 },
+  /*9  W   */ {  7, 1, K_COMPO, 2, ST_UTILITARIAN, 3 },
+  /*10 W1  */ {  9, 0, K_LEAF,  0, ST_NONE,       -1 },
+  /*11 W2  */ {  9, 1, K_LEAF,  0, ST_NONE,       -1 },
 };
-#define VM_NCFG 5
+#define VM_NCFG 6
 #include "tier_c/machine_common.hpp"
-struct A : St<1> {}; struct U : St<2> {}; struct U1 : St<3> {}; struct V : St<4> {}; struct V1 : St<5> {}; struct V2 : St<6> {}; struct O : St<7> {}; struct O1 : St<8> {}; struct O2 : St<9> {};
+struct A : St<1> {}; struct U : St<2> {}; struct V : St<3> {}; struct V1 : St<4> {}; struct V2 : St<5> {}; struct U1 : St<6> {};
+struct O : St<7> {}; struct O1 : St<8> {}; struct W : St<9> {}; struct W1 : St<10> {}; struct W2 : St<11> {};
 #else
 using FSM = M::PeerRoot< S(A), M::Utilitarian<S(U), S(U1), S(U2), S(U3)>, M::Random<S(N), S(N1), S(N2), S(N3)> >;
 #define VM_NS 10
